@@ -300,6 +300,7 @@ async def _exchange(case, tmpdir, obs):
         body = await request.read()
         seen = {"method": request.method, "path_qs": request.raw_path, "rel": str(request.rel_url),
                 "ver": list(request.version), "hdrs": _hdr_list(request.raw_headers), "body": body,
+                "app_hdrs": [[k, v] for k, v in request.headers.items()],
                 "ka": bool(request.keep_alive), "query": [[k, v] for k, v in request.query.items()],
                 "cookies": dict(request.cookies), "ae": request.headers.get("Accept-Encoding", "")}
         srv.append(seen)
@@ -401,10 +402,12 @@ async def _exchange(case, tmpdir, obs):
                                          cookies=None) as s:
             t0 = loop.time()
             try:
-                async with s.request(rq["method"], "http://example.test" + rq["path"], data=data, json=js,
+                mth = rq["method"].lower() if rq.get("mcase") == "lower" else rq["method"]
+                host = "example.test:80" if rq.get("port80") else "EXAMPLE.test" if rq.get("hostcase") else "example.test"
+                async with s.request(mth, "http://" + host + rq["path"], data=data, json=js,
                                      headers=hdrs or None, cookies=rq.get("cookies"), allow_redirects=False, **kw) as resp:
                     cli.update(status=resp.status, reason=resp.reason, ver=list(resp.version),
-                               hdrs=_hdr_list(resp.raw_headers),
+                               hdrs=_hdr_list(resp.raw_headers), app_hdrs=[[k, v] for k, v in resp.headers.items()],
                                req_hdrs=[[k, v] for k, v in resp.request_info.headers.items()])
                     cli["body"] = await resp.read()
             except ValueError as e:
@@ -685,6 +688,8 @@ def direct_oracle(ctx, case, obs):
     if seen["query"] != [[k, v] for k, v in u.query.items()]:
         V("request-query-differs", f"sent {list(u.query.items())!r}, handler saw {seen['query']!r}")
     got = [[k, v.encode("latin-1").decode("utf-8", "surrogateescape")] for k, v in seen["hdrs"]]
+    if seen.get("app_hdrs") is not None and seen["app_hdrs"] != merged_view(got):
+        V("request-headers-differ/request.headers-vs-raw_headers", f"request.headers {seen['app_hdrs']!r} != raw_headers {got!r}")
     sent = cli.get("req_hdrs")
     if sent is not None and sent != got:
         V("request-headers-differ", f"client sent {sent!r}, handler saw {got!r}")
@@ -722,8 +727,37 @@ def direct_oracle(ctx, case, obs):
             wz = (st.get("prep") or [{}])[0].get("wz")
             handler_wrote = rs["kind"] == "stream" and not rs.get("obey_empty") and rs.get("n", 0)
             # only the two understood causes get their (known) names; anything else is a different defect
-            who = ("handler-write" if handler_wrote else "compressor-flush" if wz
-                   else "body-of-" + rs["kind"] + "-response-written")
+            j0 = m["rest"].find(b"HTTP/1.")
+            junk0 = m["rest"] if j0 < 0 else m["rest"][:j0]
+            who = "body-of-" + rs["kind"] + "-response-written"
+            if handler_wrote and not wz:
+                # F24: exactly what the handler wrote (raw, or chunk-framed when enable_chunked_encoding was used)
+                hw = blob(rs.get("n", 0), 15)
+                framed = b"".join(b"%x\r\n%s\r\n" % (len(p_), p_) for p_ in split_parts(hw, rs.get("parts", 1)) if p_) + b"0\r\n\r\n"
+                # (the junk is cut where the next response seems to start; the test data contains such text itself)
+                if junk0 and (hw.startswith(junk0) or framed.startswith(junk0)):
+                    who = "handler-write"
+                else:
+                    who = "handler-write-but-other-bytes"
+            elif wz:
+                # F23: nothing but the trailer of an EMPTY compressed stream
+                try:
+                    d = ref_dechunk(junk0)
+                    raw = d[0] if (d is not None and d[1] == b"") else junk0
+                    empty = decode_ce(raw, [("Content-Encoding", "gzip" if raw[:2] == b"\x1f\x8b" else "deflate")]) == b""
+                except Exception:
+                    empty = False
+                who = "compressor-flush" if (empty and len(junk0) <= 40 and not handler_wrote) else "compressed-body-written"
+                if handler_wrote and who != "compressor-flush":
+                    # F24 with a compressing writer: the junk is (a prefix of) the compressed form of what the handler wrote
+                    try:
+                        dd = ref_dechunk(junk0)
+                        raw2 = dd[0] if dd is not None else junk0
+                        dec = zlib.decompressobj(16 + zlib.MAX_WBITS if raw2[:2] == b"\x1f\x8b" else zlib.MAX_WBITS).decompress(raw2)
+                        if blob(rs.get("n", 0), 15).startswith(dec):
+                            who = "handler-write"
+                    except Exception:
+                        pass
             j = m["rest"].find(b"HTTP/1.")
             junk = m["rest"] if j < 0 else m["rest"][:j]
             V(f"response-wire-desync/body-bytes-after-bodiless-head/{who}" if bodiless else f"response-wire-desync/surplus/{respclass(case, obs)}",
@@ -733,6 +767,10 @@ def direct_oracle(ctx, case, obs):
     if desync:
         return
     # 3b. what the caller saw
+    if "status" not in cli and "exc" not in cli:
+        V(f"exchange-never-completes/{respclass(case, obs)}",
+          f"nothing left to run (quiescent={obs.get('quiescent')}): the handler returned {fin['status']} but the caller is still waiting")
+        return
     if "exc" in cli:
         V(f"response-lost/{respclass(case, obs)}", f"handler returned {fin['status']}, caller got {cli['exc']} after {cli.get('vt', 0):.0f}s")
         return
@@ -741,6 +779,8 @@ def direct_oracle(ctx, case, obs):
     if (cli["reason"] or "") != (fin["reason"] or ""):
         V("response-reason-differs", f"handler returned {fin['reason']!r}, caller saw {cli['reason']!r}")
     got_h = [[k, v.encode("latin-1").decode("utf-8", "surrogateescape")] for k, v in cli["hdrs"]]
+    if cli.get("app_hdrs") is not None and cli["app_hdrs"] != merged_view(got_h):
+        V("response-headers-differ/resp.headers-vs-raw_headers", f"resp.headers {cli['app_hdrs']!r} != raw_headers {got_h!r}")
     if got_h != fin["hdrs"]:
         V("response-headers-differ", f"server sent {fin['hdrs']!r}, caller saw {got_h!r}")
     for k, v in rs.get("hdrs", []):
@@ -769,6 +809,19 @@ def direct_oracle(ctx, case, obs):
             V("pooled-connection-not-reused", f"both ends kept the connection but the probe opened {pr.get('new')} new")
     if not probe_ok:
         V(f"next-request-broken/{respclass(case, obs)}", f"probe after the exchange: {pr!r}")
+
+
+def merged_view(pairs):
+    """what HeadersDictProxy.items() shows: one entry per field name (first spelling, first position), the values of
+    repeated fields joined with ', '"""
+    order, vals = [], {}
+    for k, v in pairs:
+        lk = k.lower()
+        if lk not in vals:
+            vals[lk] = (k, [v]); order.append(lk)
+        else:
+            vals[lk][1].append(v)
+    return [[vals[lk][0], ", ".join(vals[lk][1])] for lk in order]
 
 
 def first_diff(a, b):
@@ -1033,7 +1086,7 @@ def skip_100(sw):
 METHODS = ["GET", "HEAD", "POST", "PUT", "PATCH", "DELETE", "OPTIONS"]
 PATHS = ["/", "/a", "/a/b/c", "/a?x=1", "/p%20q/r?x=1&y=two&x=3", "/caf%C3%A9?q=%26%3D", "/a/b?k=v#frag", "/x;y=1/z", "/a?empty=&b"]
 XHDRS = [("X-A", "1"), ("X-B", "two words"), ("X-A", "again"), ("X-Tab", "a\tb"), ("X-Long", "v" * 300), ("X-Utf", "café"),
-         ("Accept-Encoding", "gzip"), ("Accept-Encoding", "deflate, gzip"), ("Accept-Encoding", "identity"), ("Accept-Encoding", "br"),
+         ("Accept-Encoding", "gzip"), ("Accept-Encoding", "deflate, gzip"), ("Accept-Encoding", "GZip"), ("Accept-Encoding", "DEFLATE"), ("Accept-Encoding", "identity"), ("Accept-Encoding", "br"),
          ("Content-Type", "text/x-c02"), ("X-Colon", "a: b"), ("X-Empty", "")]
 RHDRS = [("X-R", "1"), ("X-R", "2"), ("X-S", "spaced value"), ("Content-Type", "application/x-c02"), ("X-Utf", "naïve"),
          ("Set-Cookie", "a=b; Path=/"), ("Set-Cookie", "c=d"), ("X-Empty", ""), ("Cache-Control", "no-cache")]
@@ -1060,6 +1113,13 @@ def gen_case(rng, big_ok=True):
         if h[0] == "Content-Type" and any(k == "Content-Type" for k, _ in rq["hdrs"]):
             continue  # a repeated singleton header is the application's own protocol error
         rq["hdrs"].append(h)
+    r = rng.random()
+    if r < 0.04:
+        rq["mcase"] = "lower"          # session.request("post", ...): the method token is upper-cased by the client
+    elif r < 0.08:
+        rq["port80"] = True            # explicit default port
+    elif r < 0.11:
+        rq["hostcase"] = True          # host spelled in upper case
     if rng.random() < 0.15:
         rq["cookies"] = {"sid": "abc123", "t": "x-y"} if rng.random() < 0.5 else {"one": "1"}
     if method in ("POST", "PUT", "PATCH", "DELETE") or rng.random() < 0.15:
@@ -1275,6 +1335,14 @@ def compare_resp(ctx, case, obs, mo, impl):
     # (a request whose user-supplied framing headers lie about its body leaves bytes behind: not modelled here)
     user_req_framing = any(k.lower() in ("content-length", "transfer-encoding") for k, _ in case["req"].get("hdrs", []))
     if rel and "exc" not in cli and not user_req_framing:
+        if rel[0].get("lost"):
+            # connection_lost reached the client before it released the connection (e.g. a 100 Continue in front of the
+            # final response costs the caller one more loop iteration): protocol.should_close then only restates the
+            # server's close, it is not the client's own decision.  That is legitimate only if the server decided to close.
+            ctx.compare(case, "server-closed-before-client-release ka=0", f"server-closed-before-client-release ka={m['ka']}",
+                        "server closed first vs Aio.C02.respPrep keepAlive")
+            ctx.hit("client-release:after-connection-lost")
+            return
         client_closes = rel[0]["force"] or rel[0]["arg"] or rel[0]["proto"]
         model_closes = m["cclose"] == "1" or bool(case.get("fc"))
         # bytes left over on the connection also force a close (ResponseHandler.should_close)
@@ -1503,7 +1571,7 @@ def compare_upfail(ctx, fcases):
         oc = "ok" if exc is None else "oserror" if exc in ("OSError", "TimeoutError") else "exception"
         h = ref_split_head(obs["wires"][0][0])
         d = ref_dechunk(h[2]) if h else None
-        eof = d is not None and d[1] == b""
+        eof = d is not None and (d[1] == b"" or d[1].startswith(b"POST /after "))
         fails = bool(obs.get("cli", {}).get("exc"))
         lines.append("wend " + oc)
         impl.append((case, f"eof={b01(eof)} fails={b01(fails)}"))
